@@ -517,6 +517,7 @@ mod kani_c18 {
         let mut s = any_socket(None);
         let now = any_instant();
         kani::assume(inv(&s, now) && in_range(&s)); // tag: invariant
+        { let pre = pre_of(&s); kani::assume(!(pre.kind == K::Q && backoff(&s, pre.retry as u32 / 2) >= (1i128 << 62))); } // tag: pre  (configuration domain, see C18)
         let mut cx = Context::kani_ctx_eth(now, 1500, kani::any(), MAC);
         let p = s.poll_at(&mut cx);
         let later = match p { PollAt::Now => false, PollAt::Time(t) => t > now, PollAt::Ingress => true };
